@@ -248,13 +248,26 @@ func tokenTable(b byte) rjson.TokenType {
 	return rjson.InvalidType
 }
 
+// checkTokens observes the token functions on three views of the same bytes: the generator's
+// slice, a copy with cap == len (a read through the capacity panics) and a copy whose spare
+// capacity continues a truncated literal (such a read would complete the token).
 func checkTokens(c *Ctx, cs *h.Case) {
-	d := cs.Input
+	checkTokensOn(c, cs, cs.Input, "")
+	if n := len(cs.Input); n <= 64 {
+		tight := make([]byte, n)
+		copy(tight, cs.Input)
+		checkTokensOn(c, cs, tight[:n:n], " on a cap==len copy")
+		checkTokensOn(c, cs, withBait(cs.Input), " with a continuation in the spare capacity")
+		c.Rec.C("inputs_also_run_as_tight_and_baited_copies")
+	}
+}
+
+func checkTokensOn(c *Ctx, cs *h.Case, d []byte, view string) {
 	p0 := 0
 	for p0 < len(d) && (d[p0] == ' ' || d[p0] == '\t' || d[p0] == '\r' || d[p0] == '\n') {
 		p0++
 	}
-	c.Guarded(cs, "NextToken", func() {
+	c.Guarded(cs, "NextToken"+view, func() {
 		tok, p, err := rjson.NextToken(d)
 		c.Rec.Evals(1)
 		if p0 == len(d) {
@@ -271,7 +284,7 @@ func checkTokens(c *Ctx, cs *h.Case) {
 			}
 		}
 	})
-	c.Guarded(cs, "NextTokenType", func() {
+	c.Guarded(cs, "NextTokenType"+view, func() {
 		tt, p, err := rjson.NextTokenType(d)
 		c.Rec.Evals(1)
 		if p0 == len(d) {
@@ -287,7 +300,7 @@ func checkTokens(c *Ctx, cs *h.Case) {
 		}
 	})
 	rest := string(d[p0:])
-	c.Guarded(cs, "ReadNull", func() {
+	c.Guarded(cs, "ReadNull"+view, func() {
 		p, err := rjson.ReadNull(d)
 		c.Rec.Evals(1)
 		want := strings.HasPrefix(rest, "null")
@@ -298,7 +311,7 @@ func checkTokens(c *Ctx, cs *h.Case) {
 			c.Rec.C("literal_null_accepted")
 		}
 	})
-	c.Guarded(cs, "ReadBool", func() {
+	c.Guarded(cs, "ReadBool"+view, func() {
 		v, p, err := rjson.ReadBool(d)
 		c.Rec.Evals(1)
 		wt, wf := strings.HasPrefix(rest, "true"), strings.HasPrefix(rest, "false")
